@@ -26,7 +26,7 @@ RULE = (
     "functions with the four teardown styles (generator, async generator, @contextmanager, @asynccontextmanager), each "
     "edge cached or use_cache=False, a node may fail before its yield (dependency-resolution failure), a yielding node "
     "may swallow or re-raise an exception thrown into it; task outcome return / raise / BaseException / timeout label "
-    "exceeded, the task function optionally with an asynchronous clean-up in its `finally` (so that after a timeout cancellation it needs further loop iterations to finish); propagate_exceptions on/off; three acknowledge types; 1-3 overlapping executions on the virtual-time "
+    "exceeded, the task function optionally with an asynchronous clean-up in its `finally` (so that after a timeout cancellation it needs further loop iterations to finish); propagate_exceptions on/off; three acknowledge types; driven through the worker's Receiver or through the bundled InMemoryBroker (whose own propagate_exceptions / await_inplace arguments configure the receiver it embeds); 1-3 overlapping executions on the virtual-time "
     "loop. Oracle per execution over the log of open / saw / close / enter / exit / save / ack events: (a) every opened "
     "yielding node is closed exactly once; (b) closes are in reverse order of opens; (c) every close happens after the "
     "task function exited (or after the failing dependency) and before the result is stored, and before the ack for "
@@ -59,6 +59,9 @@ def cases() -> Any:
         "ack_type": st.sampled_from(["when_received", "when_executed", "when_saved"]),
         "starts": st.lists(st.sampled_from([0, 0, 0.05, 0.1]), min_size=1, max_size=3),
         "cleanup": st.sampled_from([0, 0, 0.05, 0.2]),
+        # how the execution is driven: the worker's Receiver (ackable message) or the bundled InMemoryBroker, whose own
+        # propagate_exceptions / await_inplace arguments configure the receiver it embeds
+        "via": st.sampled_from(["receiver", "receiver", "inmemory", "inmemory_inplace"]),
     }))
 
 
@@ -82,15 +85,23 @@ def run_case(c: Dict[str, Any]) -> Outcome:
         k = EXEC.get()
         logs.setdefault(k, []).append((kind, node_) + payload)
 
+    cleanup_brokers: List[Any] = []
+
     async def main() -> None:
         tr = wh.Trace(loop)
-        b = wh.ScriptedBroker(tr)
+        b: Any = wh.ScriptedBroker(tr)
 
         class RB(wh.RecordingBackend):
             async def set_result(self, task_id: str, result: Any) -> None:
                 LOG("save", None, bool(result.is_err), type(result.error).__name__ if result.error is not None else None)
                 await super().set_result(task_id, result)
 
+        via = c.get("via", "receiver")
+        if via != "receiver":
+            from taskiq import InMemoryBroker
+
+            b = InMemoryBroker(propagate_exceptions=c["propagate"], await_inplace=(via == "inmemory_inplace"), sync_tasks_pool_size=1)
+            cleanup_brokers.append(b)
         b.result_backend = RB(tr)
         kind = {"ret": "ret", "raise": "raise", "base": "base", "timeout": "ret"}[c["outcome"]]
         mod, task, src = dg.build(nodes, tdeps, {"kind": kind, "cleanup": c.get("cleanup", 0)}, LOG)
@@ -104,6 +115,11 @@ def run_case(c: Dict[str, Any]) -> Outcome:
             EXEC.set(k)
             labels = {"timeout": 0.1} if c["outcome"] == "timeout" else {}
             slp = 0.5 if c["outcome"] == "timeout" else 0.05
+            if via != "receiver":
+                await AsyncKicker("t", b, labels).with_task_id(f"id{k}").kiq(k, slp)
+                if via == "inmemory":
+                    await b.wait_all()
+                return
             m = b.formatter.dumps(AsyncKicker("t", b, labels).with_task_id(f"id{k}")._prepare_message(k, slp)).message
             await r.callback(AckableMessage(data=m, ack=lambda: LOG("ack")))
 
@@ -131,6 +147,8 @@ def run_case(c: Dict[str, Any]) -> Outcome:
         finally:
             loop.close()
             asyncio.set_event_loop(None)
+            for b_ in cleanup_brokers:
+                b_.executor.shutdown(wait=False)
 
     def yielding(i: int) -> bool:
         return nodes[i]["style"] in dg.YIELDING and nodes[i]["fail"] != "before"
@@ -186,13 +204,13 @@ def run_case(c: Dict[str, Any]) -> Outcome:
                              f"failed_dep={failed_dep}; log={_brief(log)}")
         if len(pos.get("save", [])) != 1:
             out.add("C12.c", f"execution {k}: {len(pos.get('save', []))} results stored; log={_brief(log)}")
-        if len(pos.get("ack", [])) != 1:
+        if len(pos.get("ack", [])) != 1 and c.get("via", "receiver") == "receiver":
             out.add("C12.c", f"execution {k}: {len(pos.get('ack', []))} acks; log={_brief(log)}")
         multi_yield = multi_yield or n_open >= 2
         nonret = nonret or failed_dep or c["outcome"] != "ret"
     out.info = info
     out.nontrivial = bool((multi_yield and nonret) or len(c["starts"]) >= 2)
-    out.classes = [c["outcome"], c["ack_type"], "propagate" if c["propagate"] else "no_propagate"] + [cl for cl, f in (
+    out.classes = [c["outcome"], c["ack_type"], "via=" + c.get("via", "receiver"), "propagate" if c["propagate"] else "no_propagate"] + [cl for cl, f in (
         ("uncached_nested_yielding", info["uncached_nested"]), ("multi_yield", multi_yield), ("concurrent", len(c["starts"]) >= 2),
         ("async_cleanup", bool(c.get("cleanup"))), ("dependency_failure", any(nodes[i]["fail"] == "before" for i in dg.reachable(nodes, tdeps)))) if f]
     out.trace = {"log0": _brief(logs.get(0, []))}
